@@ -264,6 +264,34 @@ fn fallback_table(out: &mut EnumOut) {
                 push(out, "cipher", format!("{c:?}"), ha[3], hb[3], got);
                 cases += 1;
             }
+            // the same instance asked again, in the opposite order of kinds: an answer must not
+            // depend on what was asked (or found) before
+            for c in hashes.iter().rev() {
+                let got = fr.resolve_hash(c).map(|d| d.name());
+                push(out, "hash/second-round", format!("{c:?}"), ha[2], hb[2], got);
+                cases += 1;
+            }
+            for c in dhs.iter().rev() {
+                let got = fr.resolve_dh(c).map(|d| d.name());
+                push(out, "dh/second-round", format!("{c:?}"), ha[1], hb[1], got);
+                cases += 1;
+            }
+            let got = fr.resolve_rng().map(|mut r| {
+                let mut b = [0u8; 4];
+                r.fill_bytes(&mut b);
+                if b[0] == 0xAA {
+                    "A"
+                } else {
+                    "B"
+                }
+            });
+            push(out, "rng/second-round", "-".into(), ha[0], hb[0], got);
+            for c in ciphers.iter().rev() {
+                let got = fr.resolve_cipher(c).map(|d| d.name());
+                push(out, "cipher/second-round", format!("{c:?}"), ha[3], hb[3], got);
+                cases += 1;
+            }
+            cases += 1;
         }
     }
     // per-choice availability on ONE resolver instance, every query order of the kind's choices
